@@ -104,7 +104,44 @@ def check(ctx, prop):
     ctx.coverage["oracle"]["xfail_sessions"] = len(items)
 
 
+# ---- disabled sessions (flag, CI, xdist): snapshot(v) is v in EVERY test, also in the tests that run after a test marked xfail
+DIS_SRC = (HDR + "@pytest.mark.xfail\ndef test_1_x():\n    assert 1 == snapshot(2)\n    assert False\n\n\n"
+           + _fn("test_2_id", ID) + "@pytest.mark.xfail(reason='r')\ndef test_3_x():\n    assert snapshot(v) is v\n    assert False\n\n\n"
+           + "def test_4_id():\n    s = snapshot(v)\n    assert s is v\n    assert len(snapshot({'a': 1})) == 1\n")
+DIS_MODES = [("--inline-snapshot=disable", ["--inline-snapshot=disable"], None, False), ("CI=true", [], {"CI": "true"}, True),
+             ("xdist -n 2", ["-n", "2"], None, False), ("xdist -n 2 with category flags ignored", ["-n", "2", "-p", "no:cacheprovider"], None, False)]
+
+
+def run_disabled(mode):
+    name, args, env, keep = mode
+    d = driver.scratch_dir()
+    try:
+        driver.write_project(d, {"test_x.py": DIS_SRC})
+        r = driver.run_pytest(d, args, env=env, keep_ci=keep)
+        got = {k.split("::")[-1]: v for k, v in r["outcomes"].items()}
+        return {"name": name, "got": got, "rc": r["rc"], "after": (d / "test_x.py").read_text(), "tail": (r["stdout"] + r["stderr"])[-1200:], "infra": r.get("infra_error")}
+    finally:
+        shutil.rmtree(d, ignore_errors=True)
+
+
+def check_disabled(ctx, prop):
+    from .core import tmap
+    want = {"test_1_x": "skipped", "test_2_id": "passed", "test_3_x": "skipped", "test_4_id": "passed"}
+    for o in tmap(run_disabled, DIS_MODES):
+        ctx.count(("xfail-disabled", o["name"]), True)
+        if o["infra"]:
+            continue
+        if o["got"] != want or o["after"] != DIS_SRC:
+            ctx.report(f"{prop} oracle: disabled session ({o['name']}) with tests marked xfail between ordinary tests: snapshot(v) is not v in every test or a file was modified "
+                       f"(outcomes {o['got']}, expected {want})", {"kind": "xfail-disabled", "mode": o["name"], "output": o["tail"]})
+    ctx.coverage["oracle"]["xfail_disabled_sessions"] = len(DIS_MODES)
+
+
 def replay(case, prop):
+    if case.get("kind") == "xfail-disabled":
+        o = run_disabled([m for m in DIS_MODES if m[0] == case["mode"]][0])
+        print(o["got"], o["tail"][-600:])
+        return o["got"] == {"test_1_x": "skipped", "test_2_id": "passed", "test_3_x": "skipped", "test_4_id": "passed"} and o["after"] == DIS_SRC
     it = [p for p in projects() if p[0] == case["name"]][0]
     o = run_one((it, case["args"]))
     print(o["got"], o["after"] != o["src"], o["tail"][-500:])
